@@ -91,6 +91,7 @@ class Prover:
         self.tier = tier
         self.seed = seed
         self.rng = random.Random('%s|%s|%s' % (prop, config, seed))
+        self.xc_task = self.rng.random() < XCHECK_P[0]      # is this one of the tasks whose queries are sampled for the cross-check?
         self.timeout = query_timeout_s or (10 if tier == 'quick' else 120)
         self.solver = z3.Solver()
         self.solver.set('timeout', int(self.timeout * 1000))
@@ -100,7 +101,7 @@ class Prover:
             'config': config, 'obligations': 0, 'discharged': 0, 'nontrivial': 0, 'inconclusive': [],
             'violations': [], 'known_hits': [], 'canaries': 0, 'canaries_ok': 0, 'traces_validated': 0,
             'solver_time': 0.0, 'queries': 0, 'samples': [], 'functions': [], 'errors': [], 'notes': [],
-            'crosschecked': 0, 'states': 0, 'transitions': 0, 'refused': 0, 'programs': 0,
+            'crosschecked': 0, 'xc_tried': 0, 'states': 0, 'transitions': 0, 'refused': 0, 'programs': 0,
             'disagreements_checked': 0,
         }
 
@@ -126,8 +127,13 @@ class Prover:
             r = s.check()
             m = s.model() if r == z3.sat else None
             smt2 = None
-            if self.tier == 'thorough' and self.res['crosschecked'] < 3 and self.rng.random() < 0.05:
+            # sampled queries are re-decided by two other solvers: thorough up to 3 per task; quick at most one per task, with a
+            # probability set by run_check so that a run samples a few dozen queries over all its tasks
+            if r != z3.unknown and self.xc_task and self.res['xc_tried'] < (3 if self.tier == 'thorough' else 1) and self.rng.random() < 0.5:
+                self.res['xc_tried'] += 1
                 smt2 = s.to_smt2()
+                if len(smt2) > 400000:
+                    smt2 = None
         finally:
             s.pop()
         dt = time.time() - t0
@@ -143,9 +149,10 @@ class Prover:
             f.write('(set-logic QF_BV)\n' + smt2)
             path = f.name
         try:
-            for cmd in (['/usr/bin/z3', '-T:60', path], ['cvc5', '--tlimit=60000', path]):
+            tl = 60 if self.tier == 'thorough' else 15
+            for cmd in (['/usr/bin/z3', '-T:%d' % tl, path], ['cvc5', '--tlimit=%d' % (tl * 1000), path]):
                 try:
-                    out = subprocess.run(cmd, capture_output=True, text=True, timeout=90).stdout
+                    out = subprocess.run(cmd, capture_output=True, text=True, timeout=tl + 10).stdout
                 except Exception:
                     continue
                 if '(error' in out:
@@ -420,6 +427,9 @@ def parse_args(prop, argv=None):
     return ap.parse_args(argv)
 
 
+XCHECK_P = [0.05]
+
+
 def run_check(prop, level, tasks, args, *, design_ref='', assumptions=(), bounds=None, rule='',
               trusted_base=(), extra_coverage=None, task_limit=None, replay_fn=None, technique=''):
     """tasks: list of (name, fn, cfg).  fn(prover, cfg, recorder) runs in a worker."""
@@ -443,6 +453,7 @@ def run_check(prop, level, tasks, args, *, design_ref='', assumptions=(), bounds
             print(t[0])
         return 0
     limit = task_limit or (120 if args.tier == 'quick' else 900)
+    XCHECK_P[0] = min(1.0, (24.0 if args.tier == 'quick' else 150.0) / max(1, len(tasks)))     # inherited by the forked workers
     work = [(fn, prop, name, cfg, args.tier, args.seed, limit) for name, fn, cfg in tasks]
     results = []
     if args.jobs <= 1 or len(work) <= 1:
